@@ -1,6 +1,7 @@
 import PyCraft.Props.C10
 import PyCraft.Props.C10Wire
 import PyCraft.Props.Session
+import PyCraft.Props.C10Inbound
 #print axioms PyCraft.C10.enc_reply_then_encrypted
 #print axioms PyCraft.C10.threshold_applies_after
 #print axioms PyCraft.C10.threshold_none_before
@@ -25,3 +26,12 @@ import PyCraft.Props.Session
 #print axioms PyCraft.SessionProps.threshold_continues_into_play
 #print axioms PyCraft.SessionProps.server_flag_only_switched_on
 #print axioms PyCraft.SessionProps.threshold_forgotten_detected
+#print axioms PyCraft.C10Inbound.client_reads_server_script
+#print axioms PyCraft.C10Inbound.client_reads_regular_schedule
+#print axioms PyCraft.C10Inbound.server_stream_shape
+#print axioms PyCraft.C10Inbound.client_refines_login_model
+#print axioms PyCraft.C10Inbound.server_closes_midlogin_eof
+#print axioms PyCraft.C10Inbound.wrong_inbound_switch_detected
+#print axioms PyCraft.C10Inbound.live_profiles_ok
+#print axioms PyCraft.C10Inbound.known_versions_have_profile
+#print axioms PyCraft.C10Inbound.client_reads_server_script_at_version
